@@ -368,6 +368,8 @@ pub fn c09(c: &Collector, g: &mut Guard) {
     c.bound("geometries", json!(gs));
     c.bound("bfs_depth", json!(depth));
     c.bound("alphabet", json!("complete listener alphabet with P(g) parameters, resize to every size 1..=L+2 x 1..=C+2, DECCOLM"));
+    g.need(c, "huge_resizes");
+    g.need(c, "large_geometry_transitions");
     g.need(c, "judged");
     g.need(c, "bfs_judged");
     g.need(c, "deccolm_roundtrips");
@@ -663,6 +665,7 @@ pub fn c10(c: &Collector, g: &mut Guard) {
     c.bound("bfs_levels_3x2", json!(st.levels));
     c.bound("geometries", json!(gs));
     c.bound("bfs_depth", json!(depth));
+    g.need(c, "paired_runs");
     g.need(c, "display_calls");
     // (display_materialised_rows is informational only: it depends on the sparse representation)
     g.need(c, "grids_with_placeholder");
@@ -907,6 +910,7 @@ pub fn c15(c: &Collector, g: &mut Guard) {
     }, |op| matches!(op, Op::Reset));
     c.bound("bfs_levels_3x2", json!(st.levels));
     c.bound("geometries", json!(gs));
+    g.need(c, "large_geometry_transitions");
     g.need(c, "resets");
     g.need(c, "bfs_resets");
     g.need(c, "tab_edit_bases");
@@ -1123,6 +1127,7 @@ pub fn c17(c: &Collector, g: &mut Guard) {
     c.bound("bfs_levels_3x2", json!(st.levels));
     c.bound("geometries", json!(gs));
     c.bound("bfs_depth", json!(depth));
+    g.need(c, "large_geometry_transitions");
     g.need(c, "judged");
     g.need(c, "screen_wide");
     g.need(c, "rows_changed");
@@ -1723,6 +1728,7 @@ pub fn c14(c: &Collector, g: &mut Guard) {
     c.bound("bfs_levels_3x3", json!(st.levels));
     c.bound("geometries", json!(gs));
     c.bound("bfs_depth", json!(depth));
+    g.need(c, "large_geometry_transitions");
     g.need(c, "restore_with_saved");
     g.need(c, "restore_empty_stack");
     g.need(c, "stack_frame_checks");
@@ -1954,6 +1960,7 @@ pub fn c12(c: &Collector, g: &mut Guard) {
     );
     c.bound("bfs_levels_3x2", json!(st.levels));
     c.bound("mode_numbers", json!(if c.thorough() { "0..=9999 (all)".to_string() } else { format!("{:?}", numbers) }));
+    g.need(c, "large_geometry_transitions");
     g.need(c, "list_transitions");
     g.need(c, "parser_path_transitions");
     g.need(c, "bases_132_hidden");
@@ -2239,6 +2246,9 @@ pub fn c16(c: &Collector, g: &mut Guard) {
     );
     c.bound("geometries", json!(gs));
     c.bound("bfs_depth", json!(depth));
+    g.need(c, "wide_deccolm_resizes");
+    g.need(c, "huge_resizes");
+    g.need(c, "large_geometry_transitions");
     g.need(c, "same_size");
     g.need(c, "shrink_lines");
     g.need(c, "grow");
